@@ -30,11 +30,11 @@ inductive Op where
   | rejectIf (k : String) (v : V)      -- return null when bs[k] === v (scalar)
   | markdeep (k k2 : String) (v : V)   -- write k2 := v into every object reachable inside bs[k], in place
   | loop                               -- spin until the deadline
-  | emitBad                            -- emit a value that cannot be serialised
+  | emitBad (kind : String)            -- emit a value that cannot be serialised (":type" a function, ":cycle" a value containing itself)
 
 inductive Ret where
   | bs | null | scalar | array | fresh
-  | nan     -- the bindings with a value that cannot be serialised (0/0): the conversion of the result fails
+  | bad (kind : String)   -- bindings that cannot be converted (":nan" 0/0, ":cycle" they contain themselves): the conversion of the result fails
 
 structure Prog where
   ops           : List Op
@@ -44,7 +44,7 @@ structure Prog where
 
 /-- early exits of a program -/
 inductive Exit where
-  | fail (msg : String) | reject | timeout | badEmit
+  | fail (msg : String) | reject | timeout | badEmit (kind : String)
 
 def scalarEq (a b : V) : Bool :=
   match a.scalar?, b.scalar? with
@@ -93,7 +93,7 @@ def Op.apply (o : Op) (bs : Bs) (em : List V) : Except Exit (Bs × List V) :=
     | some x => if scalarEq x v then .error .reject else .ok (bs, em)
     | none => .ok (bs, em)
   | .loop => .error .timeout
-  | .emitBad => .error .badEmit
+  | .emitBad k => .error (.badEmit k)
 
 def runOps : List Op → Bs → List V → Except (Exit × Bs × List V) (Bs × List V)
   | [], bs, em => .ok (bs, em)
@@ -113,7 +113,7 @@ def Prog.run (p : Prog) : ActionF := fun bs =>
   | .error (.reject, _, em) => { exe := some (none, em), err := none }
   | .error (x, b, em) =>
     let msg := match x with
-      | .fail m => m | .timeout => timeoutMsg | .badEmit => badEmitMsg | .reject => ""
+      | .fail m => m | .timeout => timeoutMsg | .badEmit k => badEmitMsg ++ k | .reject => ""
     if p.native && p.partialOnFail then { exe := some (some b, em), err := some msg }
     else { exe := none, err := some msg }
   | .ok (b, em) =>
@@ -127,6 +127,6 @@ def Prog.run (p : Prog) : ActionF := fun bs =>
     | .array =>
       if p.native then { exe := some (some b, em), err := none }
       else { exe := none, err := some (notBindingsMsg ++ ":array") }
-    | .nan =>
+    | .bad k =>
       if p.native then { exe := some (some b, em), err := none }
-      else { exe := none, err := some badRetMsg }
+      else { exe := none, err := some (badRetMsg ++ k) }
